@@ -13,4 +13,16 @@ theorem lockExprs_classified : ∀ l ∈ Generated.lockExprs, ∀ e ∈ l, (clas
   subst hl
   decide
 
+/-- a request's reference count is incremented only between lock and unlock of that request's own mutex -/
+theorem newrqref_protocol : Generated.newrqrefSync =
+    some ["if(rq){", "pthread_mutex_lock(&rq->refmutex)", "rq->refcount++", "pthread_mutex_unlock(&rq->refmutex)", "}", "return"] := by decide
+
+/-- … and decremented and tested in one step under the same mutex; both ways out unlock -/
+theorem freerq_protocol : Generated.freerqSync =
+    some ["pthread_mutex_lock(&rq->refmutex)", "if(--rq->refcount){", "pthread_mutex_unlock(&rq->refmutex)", "return", "}",
+          "pthread_mutex_unlock(&rq->refmutex)"] := by decide
+
+/-- no other function of the sources writes a request's count (newrequest initialises it before the object is shared) -/
+theorem refcount_writers : Generated.rqRefcountWriters = some ["freerq", "newrequest", "newrqref"] := by decide
+
 end Rsp.Tie.C17
